@@ -1,6 +1,6 @@
 (** Model of internal/agent/relay_table.go and of the relay part of the frame
     dispatcher in internal/agent/{agent,udp,icmp}.go (properties C16, C17),
-    following the code after fix commits 22f571e and 64b5c0c.
+    following the code after fix commits c4b0fba and 1a293bf.
 
     A [table] is the pair of Go maps byUpstream / byDownstream, keyed by
     (peer, stream id).  Maps are association lists with map semantics
